@@ -509,6 +509,9 @@ pub struct Emitted {
     /// (client, session) pairs authorized at the first tick after the emission, when a dependent
     /// event is flushed: whoever was not authorized then never gets it (`None` until that tick).
     pub auth_at_flush: Option<BTreeSet<(usize, u32)>>,
+    /// Per client: the replicated server entities it could see when the event was emitted (a
+    /// dependent event may reach a client only after these have been spawned there).
+    pub visible_at_emit: BTreeMap<usize, BTreeSet<u64>>,
     /// Clients that could see the referenced entity when the event was emitted.
     pub ref_visible_at_emit: BTreeSet<usize>,
     pub emit_frame: u32,
@@ -867,6 +870,12 @@ impl EvCell {
                     sender: None,
                     auth_at_emit: (0..x.sim.clients.len()).filter(|&c| x.sim.is_authorized(c)).collect(),
                     auth_at_flush: None,
+                    visible_at_emit: {
+                        let snap = x.sim.server_snap();
+                        (0..x.sim.clients.len())
+                            .map(|c| (c, snap.keys().copied().filter(|&b| x.sim.visible_now(c, b)).collect()))
+                            .collect()
+                    },
                     ref_visible_at_emit: reference
                         .map(|e| (0..x.sim.clients.len()).filter(|&c| x.sim.visible_now(c, e.to_bits())).collect())
                         .unwrap_or_default(),
@@ -929,6 +938,7 @@ impl EvCell {
                     sender: Some((c, session, conn.to_bits())),
                     auth_at_emit: BTreeSet::new(),
                     auth_at_flush: None,
+                    visible_at_emit: BTreeMap::new(),
                     ref_visible_at_emit: BTreeSet::new(),
                     reference: server_entity.map(|e| e.to_bits()),
                     emit_frame: x.sim.server_frames,
@@ -1100,6 +1110,26 @@ impl EvCell {
                         .v(
                             "event-predates-authorization",
                             format!("c{c} observed {kind:?} #{}, which was flushed on a tick at which c{c} was not authorized", o.n),
+                        )
+                        .feat(format!("kind:{kind:?}")));
+                }
+            }
+            if self.oracles.c04 && !kind.independent() {
+                // every entity the server had replicated (or was about to replicate) to this
+                // client when the event was emitted is on the client by now, unless it is gone
+                let snap = x.sim.server_snap();
+                let map = x.sim.clients[c].app.world().resource::<ServerEntityMap>();
+                if let Some(missing) = em.visible_at_emit.get(&c).and_then(|set| {
+                    set.iter().find(|&&b| snap.contains_key(&b) && x.sim.visible_now(c, b) && !map.to_client().contains_key(&Entity::from_bits(b)))
+                }) {
+                    return Err(self
+                        .v(
+                            "event-before-spawn",
+                            format!(
+                                "c{c} observed {kind:?} #{} although entity {} - replicated and visible to it before the event was emitted - has not been spawned on it yet",
+                                o.n,
+                                fmt_bits(*missing)
+                            ),
                         )
                         .feat(format!("kind:{kind:?}")));
                 }
